@@ -66,7 +66,7 @@ def make_progset(env, P, interaction, pops):
     return ps, sym, outcomes
 
 
-def body_factory(interaction="additive", start=2000.25, stop=None, overwrite=None, pops=1, T=3):
+def body_factory(interaction="additive", start=2000.25, stop=None, overwrite=None, pops=1, T=3, junction_init=False):
     def body(env):
         am, ap, au, apar, afp = mr.modules()
         import atomica.results as ares
@@ -96,6 +96,13 @@ def body_factory(interaction="additive", start=2000.25, stop=None, overwrite=Non
             instr = ap.ProgramInstructions(start_year=start, stop_year=stop, **kw)
             m0 = am.Model(P.settings, F, P.parsets[0])
             parset.initialization = mr.symbolic_state(env, m0)
+            if junction_init:
+                # people initially in the junction are flushed into the compartments at index 0 (between the two start-up
+                # evaluations of the parameters), so the stocks the programs see change within that index
+                for pop in m0.pops:
+                    for c in pop.comps:
+                        if isinstance(c, am.JunctionCompartment):
+                            parset.initialization.values[(c.name, pop.name)] = env.real("j0|%s|%s" % (c.name, pop.name), 0, 1e6)
 
             def post_comps(model):
                 if not env.cutting:
@@ -222,6 +229,7 @@ def specs(tier):
         ("programs[additive;start=2000.25]", dict(interaction="additive", start=2000.25)),
         ("programs[random;start=2000.3(offgrid);stop=2000.5]", dict(interaction="random", start=2000.3, stop=2000.5)),
         ("programs[nested;start=2000.0]", dict(interaction="nested", start=2000.0)),
+        ("programs[additive;start=2000.0;initial junction contents]", dict(interaction="additive", start=2000.0, junction_init=True)),
         ("programs[additive;alloc overwrite]", dict(interaction="additive", start=2000.25, overwrite="alloc")),
         ("programs[additive;capacity overwrite]", dict(interaction="additive", start=2000.25, overwrite="capacity")),
         ("programs[additive;coverage overwrite]", dict(interaction="additive", start=2000.25, overwrite="coverage")),
